@@ -34,10 +34,14 @@ def rec_checksum(digest, s):
 
 def resolve_shard(arg):
     maxn, shard, nshards = arg
+    # (odd shards: stderr is /dev/full - resolving has nothing to say there)
     p = subprocess.run([os.path.join(vp.BIN, "vpmon"), "resolve", str(maxn), str(shard), str(nshards)],
-                       stdout=subprocess.PIPE, stderr=subprocess.PIPE, text=True, env=dict(os.environ, **vp.hostile_env()))
+                       stdout=subprocess.PIPE, stderr=open("/dev/full", "w") if shard % 2 else subprocess.PIPE, text=True, env=dict(os.environ, **vp.hostile_env()))
+    if p.returncode == 101 or p.returncode < 0:
+        # a panic / a signal inside the executor, whose only job is to call resolve and partial_resolve on the enumerated inventories
+        return {"died": p.returncode, "stderr": (p.stderr or "(stderr was /dev/full)")[-600:], "shard": shard}
     if p.returncode != 0:
-        return {"error": p.stderr[-2000:]}
+        return {"error": (p.stderr or "(stderr was /dev/full) exit status %d" % p.returncode)[-2000:]}
     return json.loads(p.stdout)
 
 
@@ -231,6 +235,10 @@ def run(tier, seed, work):
     reps = vp.pmap(resolve_shard, [(maxn, i, nsh) for i in range(nsh)])
     classes = set()
     for rep in reps:
+        if "died" in rep:
+            res.evaluations += 1
+            res.violation("resolve:process-died", "the process that resolves the enumerated inventories died (status %d, shard %d) inside a call: %s" % (rep["died"], rep["shard"], rep["stderr"]), {"kind": "resolve-died", "shard": rep["shard"]})
+            continue
         if "error" in rep:
             raise vp.Broken("resolve brute force failed: " + rep["error"])
         for vt, t in rep.items():
@@ -278,6 +286,11 @@ def replay(case, work):
         # (the other digest types are parsed first in the same process, as in the run that recorded the case)
         warm = [("sha256", ["sha256:" + "a" * 64]), ("sha512", ["sha512:" + "a" * 128]), ("t2", ["t2:00ff"])]
         res.merge(checksum_shard([w for w in warm if w[0] != case["digest"]] + [(case["digest"], [case["input"]])]))
+    elif case["kind"] == "resolve-died":
+        rep = resolve_shard((4, 1, 2))      # an odd shard again: stderr is /dev/full
+        res.evaluations += 1
+        if "died" in rep:
+            res.violation("resolve:process-died", "the resolving process died again (status %d)" % rep["died"], case)
     elif case["kind"] == "resolve":
         rep = resolve_shard((case["maxn"], 0, 1))
         for vt, t in rep.items():
